@@ -12,8 +12,23 @@ PROPS = {}
 
 # Properties not (yet) claimed, with the reason recorded in MANIFEST.json.  An entry here is ignored as
 # soon as the property has a claimed entry in PROPS.
-_PENDING = "no solver-decided check registered for this property yet (build in progress); see DESIGN.md section 3"
-NOT_APPLICABLE = {pid: _PENDING for pid in ["C%02d" % i for i in range(1, 20)]}
+_KANI = ("not decidable with solver-based checking of the real code in this sandbox: ")
+NOT_APPLICABLE = {
+    "C01": _KANI + "the round trip needs the message reader (PacketParser/MessageParser, PacketBodyReader, stream decryptors), all built on "
+           "BytesMut and boxed readers. Message::from_bytes compiles under Kani only after the repr(u8) transformation and then exhausts "
+           "goto-instrument's memory (16 GB); PacketBodyReader/StreamDecryptor/NormalizedReader harnesses with 1-7 symbolic octets ran out "
+           "of 12-14 GB or 10-40 min (DESIGN.md 0.6). The writer side that was decidable (SEIPDv2 stream == RFC schedule, headers, "
+           "length codecs) is claimed under C12/C17/C05; a one-sided writer check is not the round-trip property.",
+    "C03": _KANI + "every clause is about the stream *decryptors* (aead::StreamDecryptor, sym::StreamDecryptorInner); both are BytesMut "
+           "split_to/unsplit state machines for which CBMC returned no verdict even on a 33-octet stream with 3 symbolic octets "
+           "(design-phase probes, repeated with the build-phase transformations). Only decryptor *construction* is decidable (claimed under C04).",
+    "C08": _KANI + "lock/unlock runs S2K + CFB/AEAD over Bytes/BytesMut buffers; parsing a 26-octet locked secret-key body alone exceeded "
+           "12 GB (c08_usage_* probes, kept in harness/c08_secret.rs). Finding F3 (usage octet 255) was found by reading, confirmed natively and fixed.",
+    "C16": _KANI + "the cleartext framework is str-iterator code (split_inclusive, trim_end_matches, String building); a 3-octet "
+           "dash_escape/unescape probe did not finish in 7 min (design phase) and Utf8/str kernels of 2 octets ran out of 14 GB in the build phase.",
+    "C18": _KANI + "recipient handling lives in Message::decrypt*/TheRing::find_session_key, which need a parsed Message (see C01) and real "
+           "public-key decryption. The one pure kernel, PKESK recipient matching, is checked under C13 (c13_pkesk_match_*).",
+}
 NOT_APPLICABLE["C07"] = ("requires symbolic execution of real public-key key generation and signing (RSA/ECC/EdDSA "
                          "arithmetic cannot be bit-blasted); with the primitives stubbed the remaining check would not be "
                          "the property. Its MPI/padding sub-mechanism is checked under C05.")
